@@ -1694,6 +1694,10 @@ func (t *tScreen) parseRune(buf *bytes.Buffer, evs *[]Event) (bool, bool) {
 		}
 		if nOut != 0 {
 			r, _ := utf8.DecodeRune(utf[:nOut])
+			if r >= 0x80 && r < 0xa0 {
+				// a C1 control (e.g. an 8-bit CSI), not text
+				return false, false
+			}
 			if r != utf8.RuneError {
 				mod := ModNone
 				if t.escaped {
